@@ -7,7 +7,7 @@
    reading of a Starlark value (Reading.v). *)
 From Coq Require Import NArith ZArith List Bool.
 From SV Require Import C15.Utf8 C15.Float C18.Spec C18.Model C18.Reading
-  C18.ProofsSpec C18.ProofsDecode C18.ProofsEncode C18.ProofsReading.
+  C18.ProofsSpec C18.ProofsDecode C18.ProofsEncode C18.ProofsReading C18.Cycle C18.History.
 Import ListNotations.
 Open Scope N_scope.
 
@@ -74,6 +74,17 @@ Proof. exact decode_encode_representable_lemma. Qed.
 Theorem encode_errors_exactly : forall (fstr : N -> list N) (x : value),
   (exists out, encode fstr x = Some out) <-> encodable x = true.
 Proof. exact encode_errors_lemma. Qed.
+
+(* Cyclic values (Cycle.v: object graphs as heaps; the pointer path of emit):
+   json.encode returns -- a text or an error, never runs away -- on EVERY object
+   graph, cyclic or not; a self-referential list is reported as a cycle; and
+   without the path check the same input exhausts every recursion budget. *)
+Theorem encode_terminates_on_every_graph : forall (h : heap) (r : nat), encode_h h r <> EFuel.
+Proof. exact encode_h_total_lemma. Qed.
+
+Theorem cycle_check_is_needed :
+  encode_h [HSeq [0%nat]] 0 = ECycle /\ forall fuel, emit_nocheck fuel [HSeq [0%nat]] 0 = EFuel.
+Proof. exact (conj self_loop_detected nocheck_diverges_lemma). Qed.
 
 (* Non-vacuity: each premise above holds on concrete, non-trivial documents.
    {"a":[1,2.5e0,"é😀"],"a":null}   (duplicate key, escapes, a pair)
